@@ -173,7 +173,35 @@ def run(name, tier="quick", prop=None):
 
 
 def counterexample_for(ob_id):
-    """paired Kani harness for a scalar Verus obligation (none registered -> None)"""
+    """Verus gives no counterexample.  If a Kani harness is registered as the pair of this obligation (kani/*/harnesses.json,
+    key "pairs"), run it on the current tree; a FAILURE yields concrete values that are replayed natively."""
+    kdir = os.path.join(ROOT, "kani")
+    for name in sorted(os.listdir(kdir)):
+        hj = os.path.join(kdir, name, "harnesses.json")
+        if not os.path.exists(hj):
+            continue
+        with open(hj) as f:
+            cfg = json.load(f)
+        h = cfg.get("pairs", {}).get(ob_id)
+        if not h:
+            continue
+        try:
+            dst, cfg2, meta = prepare(name)
+        except Exception:
+            return None
+        b = subprocess.run(["cargo", "kani", "--only-codegen"] + cfg.get("flags", []), cwd=dst, env=env(), capture_output=True, text=True)
+        if b.returncode != 0:
+            return None
+        full = "harness::" + h
+        r = run_one(dst, full, cfg.get("flags", []), 600, playback=True)
+        if r["result"] == "FAILURE":
+            test = r.get("playback_test")
+            if not test:
+                fn = full.split("::")[-1]
+                test = f"#[test]\nfn kani_concrete_playback_{fn}() {{\n    {fn}();\n}}\n"
+            return {"kind": "kani-playback", "crate": name, "harness": full, "test": test, "paired_with": ob_id,
+                    "kani_output": r.get("output", "")[:1500]}
+        return None
     return None
 
 
